@@ -26,7 +26,7 @@ ASSUMPTIONS = [
     'a tie in a preference admits any weakly stable outcome',
 ]
 SIZES = {
-    'quick': dict(prefs=6000, intervals=1500, n=900, cli=30, shift=60),
+    'quick': dict(prefs=16000, intervals=4000, n=2000, cli=40, shift=120),
     'thorough': dict(prefs=160000, intervals=40000, n=32000, cli=800, shift=1600, field=48),
 }
 REQUIRED = {
